@@ -131,7 +131,7 @@ def run(ctx):
             ctx.inconclusive("race detector report inside the harness only: %s" % (frames[:3],))
     ctx.cover(race_reports=len(races))
     for k in ("programs", "accessors_held", "lin_writes", "lin_reads_checked", "fd_checks", "scenario_held_accessor",
-              "scenario_stale_cache", "scenario_reput", "scenario_shared_accessor", "cache_entries_observed", "lock_acquisitions",
+              "scenario_stale_cache", "scenario_reput", "scenario_shared_accessor", "scenario_second_square_load", "cache_entries_observed", "lock_acquisitions",
               "ops_PutODSQ4", "ops_RemoveODSQ4", "ops_RemoveQ4", "ops_Get", "ops_CachedGet", "ops_Has"):
         if c.get(k, 0) == 0:
             ctx.inconclusive("vacuity: driver counter %s is 0" % k)
